@@ -261,6 +261,9 @@ def check_solve(led):
         log.append(dict(fn='spsolve', A=A.term, b=bvec.term))
         return AArr((A.shape[0],), ('spsolve', A.term, bvec.term), 'float')
     it.contracts['scipy.sparse.linalg.spsolve'] = spsolve
+    # operators that change the matrix (their own contracts are proved in sparse_proof): whatever solve() does to K is visible in the term
+    for nm_ in ('finalize_symmetric_matrix', 'make_symmetric', 'make_skew_symmetric'):
+        it.contracts['compmech.sparse.' + nm_] = (lambda nm__: lambda itp, a, kw: AArr(a[0].shape, (nm__, a[0].term), 'float'))(nm_)
     # the real remove_null_cols is replaced by its contract (bounded stand-in covers the real one)
     n = integer('size')
     it.facts += [to_z3(n) >= 1]
